@@ -1,6 +1,9 @@
 package rig
 
 import (
+	"fmt"
+	"runtime"
+	"strings"
 	"sync"
 	"time"
 
@@ -21,12 +24,53 @@ type Notes struct {
 	mu    sync.Mutex
 	start time.Time
 	evs   []NoteEv
+	// offLoop: first call of one of the agent's loop-owned functions (site "agent.state") from a goroutine that
+	// is not the agent's task loop
+	offLoop string
+	touches int
+}
+
+// offLoopCaller inspects the stack of the caller of a Note("agent.state") site: the loop-owned functions of the
+// agent run under taskloop.(*Loop).runLoop (tasks and the close callback) and nowhere else. It returns a
+// description of the call chain when runLoop is not on the stack.
+func offLoopCaller() string {
+	var pcs [64]uintptr
+	n := runtime.Callers(4, pcs[:])
+	frames := runtime.CallersFrames(pcs[:n])
+	var chain []string
+	for {
+		f, more := frames.Next()
+		if strings.Contains(f.Function, "taskloop.(*Loop).runLoop") {
+			return ""
+		}
+		if len(chain) < 6 && f.Function != "" {
+			name := f.Function
+			if i := strings.LastIndex(name, "/"); i >= 0 {
+				name = name[i+1:]
+			}
+			chain = append(chain, fmt.Sprintf("%s:%d", name, f.Line))
+		}
+		if !more {
+			break
+		}
+	}
+	return strings.Join(chain, " <- ")
 }
 
 // InstallNotes installs the observer for this run; it is removed when the run ends.
 func InstallNotes(c *core.Ctx) *Notes {
 	n := &Notes{start: time.Now().Add(-c.Now())}
 	ice.VerifSetNote(func(site string, v any) {
+		if site == "agent.state" {
+			off := offLoopCaller()
+			n.mu.Lock()
+			n.touches++
+			if off != "" && n.offLoop == "" {
+				n.offLoop = off
+			}
+			n.mu.Unlock()
+			return
+		}
 		n.mu.Lock()
 		n.evs = append(n.evs, NoteEv{At: time.Since(n.start), Site: site, V: v})
 		n.mu.Unlock()
@@ -49,4 +93,12 @@ func (n *Notes) Len() int {
 	n.mu.Lock()
 	defer n.mu.Unlock()
 	return len(n.evs)
+}
+
+// OffLoop returns the call chain of the first touch of loop-owned agent state from outside the task loop ("" if
+// none) and how many touches were inspected.
+func (n *Notes) OffLoop() (string, int) {
+	n.mu.Lock()
+	defer n.mu.Unlock()
+	return n.offLoop, n.touches
 }
